@@ -40,6 +40,8 @@ func ValidateSpecAnnotations(name string, any interface{}) error {
 			}
 		}
 		return validateSpecAnnotations(name, annotations)
+	case map[string]string:
+		return validateSpecAnnotations(name, v)
 	}
 
 	return nil
